@@ -21,6 +21,7 @@
 package bfe_http
 
 import (
+	"bytes"
 	"errors"
 	"fmt"
 	"io"
@@ -114,6 +115,15 @@ func readLine(b *bfe_bufio.Reader) (p []byte, err error) {
 	}
 	if len(p) >= maxLineLength {
 		return nil, ErrLineTooLong
+	}
+
+	// A bare LF is tolerated as a line ending in headers, but not in
+	// chunked encoding lines: verify that the line ends in a CRLF,
+	// and that no CR appears before the end.
+	if idx := bytes.IndexByte(p, '\r'); idx == -1 {
+		return nil, errors.New("chunked line ends with bare LF")
+	} else if idx != len(p)-2 {
+		return nil, errors.New("invalid CR in chunked line")
 	}
 	return trimTrailingWhitespace(p), nil
 }
